@@ -508,8 +508,9 @@ this handler — this one, one still in flight, one long finished — or a value
 table of outstanding states (structural fact `oauth.handler.fields`), so an attempt accepts exactly
 the state generated for it.
 
-An attempt is ATOMIC in two pieces: `start` (everything up to the call of the fetcher: it reads only
-the fixed configuration and the network, writes nothing on the handler) and `finish` (from the
+An attempt is ATOMIC in two pieces: `start` (everything up to the call of the fetcher: it reads the
+fixed configuration, the network and — for the scopes it asks for, Scopes.lean — `grantedScopes`; it writes
+nothing on the handler) and `finish` (from the
 fetcher's return: state comparison, RFC 9207 check, exchange, `h.tokenSource = ts` under `mu`).  The
 model therefore computes the whole result of an attempt at its `finish` step from the attempt alone;
 the only effect on the handler is the token source served.  The finishing piece itself touches the
